@@ -12,7 +12,7 @@ def leafset(maxleaf, dt="int64"):
 def session_consts(**kw):
     c = dict(LeafSet=leafset(3), MaxLen="2", MaxDepth="2", Classes=ALL_CLASSES, OpSet="{}", ValidOnly="TRUE",
              SliceItems="{}", SliceTuples="{}", Axes="{-3,-2,-1,0,1,2,3}", Targets="{0,1,2,3}", CombNs="{0,1,2,3}",
-             EmitOn="TRUE")
+             ReduceArgs="AllReduceArgs", EmitOn="TRUE")
     c.update(kw)
     return c
 
@@ -80,3 +80,65 @@ def run_C01(ctx):
 
 
 RUNNERS["C01"] = run_C01
+
+
+# ------------------------------------------------------------------ C09 (missing values: pad / option encodings)
+OPTION_CLASSES = '{"ListOffset","List","Regular","IndexedOption","ByteMasked","BitMasked","Unmasked","Indexed"}'
+
+
+def run_C09(ctx):
+    ctx.build("opt")
+    consts = session_consts(OpSet='{"tolist","pad"}', LeafSet=leafset(2 if ctx.quick() else 3), Classes=OPTION_CLASSES,
+                            Axes="{-3,-2,-1,0,1,2,3}" if not ctx.quick() else "{-2,-1,0,1,2}",
+                            Targets="{0,1,2,3}" if not ctx.quick() else "{0,1,3}")
+    ctx.tlc_phase("pad-all-encodings", "Session", consts, invariants=["Refines", "Closed"],
+                  require_actions=["PadOp", "WrapByteMasked", "WrapBitMasked", "WrapIndexedOption", "WrapUnmasked"])
+    return ctx.finish()
+
+
+# ------------------------------------------------------------------ C07 (combinations)
+def run_C07(ctx):
+    ctx.build("opt")
+    consts = session_consts(OpSet='{"comb"}', LeafSet=leafset(3 if ctx.quick() else 4),
+                            Classes='{"ListOffset","List","Regular","IndexedOption","ByteMasked","Indexed"}',
+                            MaxLen="2", Axes="{-2,-1,0,1,2,3}", CombNs="{0,1,2,3}" if ctx.quick() else "{0,1,2,3,4}")
+    ctx.tlc_phase("combinations", "Session", consts, invariants=["Refines", "Closed"],
+                  require_actions=["CombOp", "WrapListOffset", "WrapList", "WrapRegular"])
+    return ctx.finish()
+
+
+# ------------------------------------------------------------------ C11 (validity exact + closed)
+def run_C11(ctx):
+    ctx.build("opt")
+    consts = session_consts(OpSet='{"validity"}', ValidOnly="FALSE", LeafSet=leafset(2),
+                            MaxDepth="2", Classes=ALL_CLASSES if not ctx.quick() else
+                            '{"ListOffset","List","Regular","Indexed","IndexedOption","ByteMasked","BitMasked","Unmasked"}',
+                            MaxLen="2" if not ctx.quick() else "2")
+    ctx.tlc_phase("exactness", "Session", consts, invariants=["Refines"],
+                  require_actions=["Validity", "WrapListOffset", "WrapList", "WrapIndexed", "WrapIndexedOption",
+                                   "WrapByteMasked", "WrapBitMasked"],
+                  max_cases=400000 if ctx.quick() else None)
+    return ctx.finish()
+
+
+RUNNERS.update({"C09": run_C09, "C07": run_C07, "C11": run_C11})
+
+
+# ------------------------------------------------------------------ C03 (reducers)
+REDUCE_LEAVES = '{Numpy("int64", d) : d \\in {<<>>, <<1>>, <<0,2>>, <<2,1>>, <<1,1,0>>}}'
+
+
+def run_C03(ctx):
+    ctx.build("opt")
+    consts = session_consts(OpSet='{"reduce"}', LeafSet=REDUCE_LEAVES,
+                            Classes='{"ListOffset","List","Regular","IndexedOption","ByteMasked","BitMasked","Unmasked","Indexed"}',
+                            Axes="{-3,-2,-1,0,1,2}",
+                            ReduceArgs="RandomSubset(%d, AllReduceArgs)" % (4 if ctx.quick() else 16))
+    ctx.tlc_phase("reduce", "Session", consts, invariants=["Refines", "Closed"], seed_tlc=True,
+                  require_actions=["ReduceOp", "WrapListOffset", "WrapList", "WrapRegular", "WrapIndexedOption",
+                                   "WrapByteMasked"])
+    return ctx.finish(assumptions=["leaf values are small integers incl. ties and zeros; float accuracy is out of scope",
+                                   "records/unions are not reduced by this model (VReduce returns Unspec)"])
+
+
+RUNNERS["C03"] = run_C03
